@@ -127,13 +127,13 @@ def random_jobs(rng, n):
         elif o < 0.7:
             ys.sort(); xs.sort()
         j = fam_job(fam, mask, H, W, ys=ys, xs=xs)
-        j["layout"] = rng.choice(["C", "C", "F", "view"])
+        j["layout"] = rng.choice(["C", "F", "view", "T", "rev"])
         j["dims"] = rng.choice([["y", "x"], ["lat", "lon"], ["row", "col"]])
         if j["dtype"] == "float64":
             j["dtype"] = rng.choice(["float64", "float32"])
             j["scale"] = rng.choice([1, 0.5, 2.5])
         elif j["dtype"] == "int64":
-            j["dtype"] = rng.choice(["int64", "int32", "int16"])
+            j["dtype"] = rng.choice(["int64", "int32", "int16", "int8", "uint8", "uint16", "uint32", "uint64"])
             if rng.random() < 0.3:
                 j["list_float"] = True
         if j["list"] is not None:
